@@ -461,6 +461,10 @@ func (e *Enc) binop(fr *Frame, x *ssa.BinOp) {
 			e.setVal(fr, x, e.s.Define("and:"+x.Name(), App(SInt, "mod", at, IntBig(new(big.Int).Add(m, big.NewInt(1))))))
 		} else if m, ok := litValue(at); ok && isMask(m) {
 			e.setVal(fr, x, e.s.Define("and:"+x.Name(), App(SInt, "mod", bt, IntBig(new(big.Int).Add(m, big.NewInt(1))))))
+		} else if m, ok := litValue(bt); ok && fewBits(m) {
+			e.setVal(fr, x, e.s.Define("and:"+x.Name(), andWithBits(at, m)))
+		} else if m, ok := litValue(at); ok && fewBits(m) {
+			e.setVal(fr, x, e.s.Define("and:"+x.Name(), andWithBits(bt, m)))
 		} else {
 			r := e.uninterpBits(fr, "and", at, bt, rt)
 			if rg, _ := intRangeOf(rt); !rg.signed {
@@ -552,8 +556,11 @@ func (e *Enc) eqValLoose(a, b Val, ta, tb types.Type) T {
 		return Eq(ib.Tag, IntLit(0))
 	}
 	if sa, ok := a.(*SliceV); ok {
-		_ = b
-		return Eq(sa.Base, IntLit(0)) // slices can only be compared with nil
+		if sb, ok := b.(*SliceV); ok {
+			// contract-level comparison of two slice headers
+			return And(Eq(sa.Base, sb.Base), Eq(sa.Off, sb.Off), Eq(sa.Len, sb.Len))
+		}
+		return Eq(sa.Base, IntLit(0)) // in Go, slices can only be compared with nil
 	}
 	if sb, ok := b.(*SliceV); ok {
 		return Eq(sb.Base, IntLit(0))
@@ -646,4 +653,38 @@ func (e *Enc) typeAssert(fr *Frame, x *ssa.TypeAssert) {
 		fr.curReach = e.s.Define("reach:ta", And(fr.curReach, okT))
 		e.setVal(fr, x, res)
 	}
+}
+
+// fewBits: a non-negative constant with at most 8 set bits.
+func fewBits(m *big.Int) bool {
+	if m.Sign() < 0 {
+		return false
+	}
+	n := 0
+	for i := 0; i < m.BitLen(); i++ {
+		if m.Bit(i) == 1 {
+			n++
+		}
+	}
+	return n <= 8
+}
+
+// andWithBits: x & m for a constant m, as a sum of single-bit extractions (exact for two's
+// complement values since SMT div/mod with positive divisor floor).
+func andWithBits(x T, m *big.Int) T {
+	if m.Sign() == 0 {
+		return IntLit(0)
+	}
+	var terms []T
+	for i := 0; i < m.BitLen(); i++ {
+		if m.Bit(i) == 1 {
+			p := IntBig(pow2(uint(i)))
+			bit := App(SInt, "mod", App(SInt, "div", x, p), IntLit(2))
+			terms = append(terms, Mul(bit, p))
+		}
+	}
+	if len(terms) == 1 {
+		return terms[0]
+	}
+	return App(SInt, "+", terms...)
 }
